@@ -394,7 +394,8 @@ def check(run):
             run.check(good, 'D5', 'Slice.preload_ref[offset]' if not good else f'preload_ref-offset[after {nskip}]',
                       f'after {nskip} consumed reference(s): preload_ref(0..{3 - nskip}) -> {[vrepr(g)[:12] for g in got]}, then load_ref -> {vrepr(nxt)[:12]}', wb)
     # snake strings with and without the zero prefix byte
-    for text in ('', 'a', 'snake ' * 40, 'z' * 127, 'z' * 128):
+    # (texts that begin with U+0000 / end with it / consist of it: the characters of the text are data, whatever byte value they have)
+    for text in ('', 'a', 'snake ' * 40, 'z' * 127, 'z' * 128, '\x00', '\x00abc', 'abc\x00', '\x00' * 3, '\x00' + 'q' * 130, '\u00e9\x00\u20ac'):
         for prefix in (False, True):
             it = Interp(prog)
             with guard(run, 'D5', 'Builder.store_snake_string/Slice.load_snake_string', wb, 'snake string'):
